@@ -1,14 +1,14 @@
 package main
 
 import (
-	"regexp"
 	"encoding/json"
-	"go/token"
-	"go/types"
 	"flag"
 	"fmt"
+	"go/token"
+	"go/types"
 	"os"
 	"path/filepath"
+	"regexp"
 	"runtime"
 	"sort"
 	"strconv"
@@ -240,7 +240,7 @@ func runCheck(prop string, o checkOpts) *checkResult {
 			sem <- struct{}{}
 			defer func() { <-sem }()
 			results[i] = verifyFunction(P, fn, []string{prop})
-					}(i, fn)
+		}(i, fn)
 	}
 	wg.Wait()
 	var all []*Obligation
@@ -532,24 +532,24 @@ func writeEvidence(prop string, o checkOpts, res *checkResult) {
 		}
 	}
 	cov := map[string]interface{}{
-		"obligations":              res.nObl - res.known,
+		"obligations":                            res.nObl - res.known,
 		"obligations_recorded_as_known_findings": res.known,
-		"discharged":               res.nDischarged,
-		"obligation_instances":     res.nInstances,
-		"instances_by_simplifier":  res.nTrivial,
-		"checker_cmd":              fmt.Sprintf("/verif/bin/kvc check %s --tier %s", prop, o.tier),
-		"trusted_base":             assumptions,
-		"samples":                  samples,
-		"functions_under_contract": fnames,
-		"callees_via_contract":     viaCt,
-		"callees_inlined":          inlined,
-		"outside_reach":            unsup,
-		"loops_without_variant":    uniq(noDecr),
-		"unrolled_loops":           uniq(bounded),
-		"solver_wins":              wins,
-		"solver_seconds":           float64(solverSeconds) / 1000,
-		"known_findings_printed":   res.known,
-		"contract_lines":           0,
+		"discharged":                             res.nDischarged,
+		"obligation_instances":                   res.nInstances,
+		"instances_by_simplifier":                res.nTrivial,
+		"checker_cmd":                            fmt.Sprintf("/verif/bin/kvc check %s --tier %s", prop, o.tier),
+		"trusted_base":                           assumptions,
+		"samples":                                samples,
+		"functions_under_contract":               fnames,
+		"callees_via_contract":                   viaCt,
+		"callees_inlined":                        inlined,
+		"outside_reach":                          unsup,
+		"loops_without_variant":                  uniq(noDecr),
+		"unrolled_loops":                         uniq(bounded),
+		"solver_wins":                            wins,
+		"solver_seconds":                         float64(solverSeconds) / 1000,
+		"known_findings_printed":                 res.known,
+		"contract_lines":                         0,
 	}
 	if res.funcs != nil && len(res.funcs) > 0 {
 		cov["contract_lines"] = res.funcs[0].Exec.P.contracts.nLines
